@@ -204,8 +204,49 @@ func c12r3(c *Ctx) {
 			napp++
 		}
 	})
-	svLoops := rangeLoops(sv)
-	c.Check("SortVHostRoutes is a single in-order pass with two buckets", sv.Pos(), len(svLoops) == 1 && napp == 3, "expected one pass over the routes appending to two buckets and one final concatenation")
+	// exactly one loop, running forward: a `range` over the routes, or an index loop counting up from 0 by 1
+	nLoops, forward := 0, true
+	for _, h := range sv.Blocks {
+		isHeader := false
+		for _, pr := range h.Preds {
+			if h.Dominates(pr) {
+				isHeader = true
+			}
+		}
+		if !isHeader {
+			continue
+		}
+		nLoops++
+		if strings.HasPrefix(h.Comment, "rangeindex") {
+			continue
+		}
+		// hand-written index loop: some phi in the header starts at 0 and is incremented by 1
+		up := false
+		for _, ins := range h.Instrs {
+			ph, ok := ins.(*ssa.Phi)
+			if !ok {
+				continue
+			}
+			zero, inc := false, false
+			for _, e := range ph.Edges {
+				if k, ok := e.(*ssa.Const); ok && k.Value != nil && k.Int64() == 0 {
+					zero = true
+				}
+				if b, ok := e.(*ssa.BinOp); ok && b.Op == token.ADD && b.X == ssa.Value(ph) {
+					if k, ok := b.Y.(*ssa.Const); ok && k.Value != nil && k.Int64() == 1 {
+						inc = true
+					}
+				}
+			}
+			if zero && inc {
+				up = true
+			}
+		}
+		if !up {
+			forward = false
+		}
+	}
+	c.Check("SortVHostRoutes is a single in-order pass with two buckets", sv.Pos(), nLoops == 1 && forward && napp == 3, "expected one forward pass over the routes appending to two buckets and one final concatenation")
 	c.Floor(8)
 }
 
